@@ -140,11 +140,14 @@ class State:
                 if isinstance(v, Ptr):
                     raise FrontEndError('symbolic index into pointer array %s' % p.obj.name)
                 if res is None:
-                    res = v
-                else:
-                    cond = z3.And(*[i == exe.sem.idx_const(c) if not isinstance(i, int) else z3.BoolVal(i == c)
-                                    for i, c in zip(p.idx, combo)])
-                    res = z3.If(cond, v, res)
+                    # an index outside the object denotes no cell: an unconstrained value (executable accesses carry a
+                    # bounds obligation; in specifications this keeps quantified clauses from holding vacuously)
+                    ixs = [exe.sem.idx_const(i) if isinstance(i, int) else i for i in p.idx]
+                    f = z3.Function('oob(%s%s)' % (p.obj.name, ''.join('.' + x for x in p.path)), *([x.sort() for x in ixs] + [v.sort()]))
+                    res = f(*ixs)
+                cond = z3.And(*[i == exe.sem.idx_const(c) if not isinstance(i, int) else z3.BoolVal(i == c)
+                                for i, c in zip(p.idx, combo)])
+                res = z3.If(cond, v, res)
             return res
         # z3 mode
         if isinstance(ct, (TPtr,)):
@@ -358,7 +361,7 @@ def _merge_into(out, s1, s2, c1, exe):
                 try:
                     st.conc[cidx] = merge_vals(c1, va, vb)
                 except CannotMerge:
-                    if obj.kind != 'local':
+                    if obj.kind != 'local' or not getattr(exe, 'drop_dead_ptr_locals', False):
                         raise
                     # a (dead) local pointer variable that points to different objects on the two paths:
                     # forget it (a later read yields an uninitialised pointer, which is reported if dereferenced)
@@ -369,5 +372,8 @@ def _merge_into(out, s1, s2, c1, exe):
         if va is None or vb is None:
             out.ghost[g] = va if va is not None else vb
         else:
-            out.ghost[g] = merge_vals(c1, va, vb) if not isinstance(va, (int, str, tuple, list, dict)) or va != vb else va
+            if isinstance(va, (int, str, tuple, list, dict)) or isinstance(vb, (int, str, tuple, list, dict)):
+                out.ghost[g] = va
+            else:
+                out.ghost[g] = merge_vals(c1, va, vb)
     return out
